@@ -338,6 +338,9 @@ func (cd *cmdDispatcher) prepare(cs *clientState, input respValue) (ctx *cmdCont
 
 		text := respErrorString(fmt.Sprintf("ERR Unknown command `%s`, with args beginning with: %s", cmdNameArg, joinedArgs))
 		response = text
+		if cs.cmdQueue != nil {
+			cs.cmdQueueError = true
+		}
 		return
 	}
 
@@ -374,6 +377,9 @@ func (cd *cmdDispatcher) prepare(cs *clientState, input respValue) (ctx *cmdCont
 			text = respErrorString(fmt.Sprintf("ERR unknown subcommand '%s'. Try CLIENT HELP.", cmdToken))
 		}
 		response = text
+		if cs.cmdQueue != nil {
+			cs.cmdQueueError = true
+		}
 		return
 	}
 
